@@ -419,6 +419,9 @@ def parse_rvalue(s, fn, dst_ty):
         if sc and re.match(r'^[\w:<>&\'\[\], ()*;]+$', sc[0]) and '::' in sc[0]:
             return ('adt_tuple', sc[0].strip(), [parse_operand(x) for x in split_top(sc[1])])
     if re.match(r'^[\w:<>&\'\[\], ()*;]+$', s) and ('::' in s or s[:1].isupper()):
+        if '::' not in s and dst_ty and re.match(r'^[\w:]+$', dst_ty.strip()):
+            # a bare (imported) variant name: qualify it with the declared type of the destination
+            return ('adt_unit', dst_ty.strip() + '::' + s)
         return ('adt_unit', s)
     if re.fullmatch(r'[\w:<>]+', s):
         return ('use', ('const', ('fnitem', s)))
